@@ -37,14 +37,18 @@ MODELLED_NOT_VERIFIED = [
     "C12: the interpreter recursion limit (deep caterpillars raise RecursionError: known finding) is not modelled",
 ]
 EXPLANATION = ("Theorems about the fuelled heap model of Annotable.__deepcopy__ / Taxon / TaxonNamespace / AnnotationSet copying "
-               "with deep_copy_annotations_from and its re-targeting (the definitions the driver runs), for every heap (cycles allowed), "
-               "every pre-seeded memo and every fuel: copy_fresh (memo targets are pre-seeded or freshly allocated), copy_no_write "
-               "(+ _deep, _scoped: nothing that existed before is written), copy_disjoint / copy_shares_only_preseeded / "
-               "deep_copy_shares_nothing (the copy reaches old objects only through the pre-seeded range; a deep copy reaches none), "
-               "frame_source_write and frame_copy_write (no later write to either side is visible through the other), "
-               "bound_annotation_retarget, extract_leaves, extract_suppresses. copy_independent_partial bundles the deep-copy facts; "
-               "it is PARTIAL: copy_iso (field-wise equality of copy and source under the memo) and fuel sufficiency are not proved - "
-               "equality is covered by the per-case comparison of the model's copy with the real copy and by the fingerprint oracle only.")
+               "with deep_copy_annotations_from and its re-targeting, for every heap (cycles allowed), every pre-seeded memo and every "
+               "fuel: copy_fresh, copy_memo_injective (memo targets exist; distinct sources get distinct copies), copy_no_write "
+               "(+ _deep, _scoped), copy_disjoint / copy_shares_only_preseeded / deep_copy_shares_nothing, frame_source_write / "
+               "frame_copy_write (one later write) and frame_source_history / frame_copy_history (every sequence of later overwrites and "
+               "allocations on one side leaves the other side's objects unchanged); about the function the driver runs: route_spec "
+               "(copyRoute = preseed, which changes no exported object and seeds only listed targets or new taxa, then cpVal with fuel "
+               "size+1), route_no_write, route_shares_only_preseeded; extract_leaves, extract_suppresses, extract_nosup_attrs, "
+               "extract_sup_labels. PARTIAL: copy_independent_partial (copy_iso = field-wise equality of copy and source under the memo, "
+               "and fuel sufficiency, are not proved: every theorem is conditional on the run returning ok, which the driver reports per "
+               "case; equality is covered by the per-case comparison with the real copy and by the fingerprint oracle only) and "
+               "retarget_step_partial (the re-targeting step, not the final state). Length sums under suppression are checked by the "
+               "oracle only.")
 
 # ---------------------------------------------------------------------------------------------------------------------
 # object graph export (the REAL graph: every __dict__ attribute, list, dict, set, tuple), ids renumbered
@@ -205,10 +209,17 @@ def canon(objs, rootval, n_old):
                 continue
             stack.extend(reversed([x for name, x in sorted(fs) if name not in CANON_DROP]))
 
+    def skey(v):
+        # structural key of a set element (never its position in the set, which is hash order)
+        if v[0] == "a":
+            return ("a", v[1], ())
+        kind, cls, fs = objs[v[1]]
+        return ("r", cls, tuple(sorted((n, x[1]) for n, x in fs if x[0] == "a")))
+
     visit(rootval)
     k = 0
     while k < len(deferred):
-        for name, x in objs[deferred[k]][2]:
+        for name, x in sorted(objs[deferred[k]][2], key=lambda nv: skey(nv[1])):
             visit(x)
         k += 1
 
@@ -273,6 +284,16 @@ def dec_model(line, n_old, src_objs):
             fs.append((unhex6(ws[pos]), dv(ws[pos + 1])))
             pos += 2
         objs.append((kind, cls, fs))
+    extra = {"changed": None, "memo": None}
+    if pos < len(ws) and ws[pos] == "changed":
+        k = int(ws[pos + 1])
+        extra["changed"] = [int(x) for x in ws[pos + 2:pos + 2 + k]]
+        pos += 2 + k
+    if pos < len(ws) and ws[pos] == "memo":
+        k = int(ws[pos + 1])
+        flat = [int(x) for x in ws[pos + 2:pos + 2 + 2 * k]]
+        extra["memo"] = list(zip(flat[0::2], flat[1::2]))
+    dec_model.last_extra = extra
     return objs, root
 
 
@@ -1116,6 +1137,37 @@ def thin_only_problems(dendropy, src, cp):
     return sorted(set(probs))
 
 
+def suppressed_extract_problems(src, cp):
+    probs = []
+
+    def leaf_paths_in_order(tree):
+        out, stack = [], [(tree._seed_node, tu.F(tree._seed_node._edge.length))]
+        while stack:
+            nd, acc = stack.pop()
+            if not nd._child_nodes:
+                out.append((None if nd.taxon is None else nd.taxon._label, acc))
+            for c in reversed(nd._child_nodes):
+                stack.append((c, acc + tu.F(c._edge.length)))
+        return out
+    a, b = leaf_paths_in_order(src), leaf_paths_in_order(cp)
+    if [x[0] for x in a] != [x[0] for x in b]:
+        probs.append("extracted tree has other leaf taxa (or another order) than its source")
+    elif a != b:
+        probs.append("extracted tree changes a root-to-leaf length sum: %s" % ([(x, str(p), str(q)) for (x, p), (_, q) in zip(a, b) if p != q][:2],))
+    if any(len(nd._child_nodes) == 1 for nd in tu.walk(cp._seed_node)):
+        probs.append("extracted tree still has a unifurcation although suppress_unifurcations is set")
+    keep = [(None if nd.taxon is None else nd.taxon._label, nd._label, nd._edge._label) for nd in tu.walk(src._seed_node)
+            if len(nd._child_nodes) != 1]
+    got = [(None if nd.taxon is None else nd.taxon._label, nd._label, nd._edge._label) for nd in tu.walk(cp._seed_node)]
+    if keep != got:
+        probs.append("extracted nodes are not the source's non-unifurcation nodes with their taxon, label and edge label")
+    for nd in tu.walk(cp._seed_node):
+        if nd.taxon is not None and not any(nd.taxon is t for t in src.taxon_namespace._taxa):
+            probs.append("extracted node references a Taxon object that is not in the source's namespace")
+            break
+    return probs
+
+
 def bound_owner_problems(dendropy, src, cp):
     """attribute-bound annotations: the owner of a copied bound annotation must not be a (non-shared) object of the source"""
     probs = []
@@ -1179,6 +1231,7 @@ def run_case(ctx, dendropy, spec, pending=None, report=True):
     if not deep_graph:
         g, rootvals = export(dendropy, [src])
         src_mut = g.mutable_ids(dendropy)
+        src_mut_objs = list(g.objs)        # the source graph proper (the other namespace, if any, is appended after it)
         names = {okey(o): type(o).__name__ for o in g.keep}
         if ns2 is not None:
             g, _ = export(dendropy, [ns2], graph=g)
@@ -1232,6 +1285,22 @@ def run_case(ctx, dendropy, spec, pending=None, report=True):
     if cp is None:
         fail("copy-none", "the copy route returned None")
         return fails
+
+    # ---- copying does not change the source (statement level: its fingerprint; graph level: for the correspondence)
+    try:
+        fp_after = J(view(src))
+    except Exception as e:
+        fp_after = "unwalkable:" + exc_name(e)
+    if fp_after != fp_src:
+        fail("source-changed", "the copy route changed its source: %s" % (
+            first_diff(json.loads(fp_src), json.loads(fp_after)) if not fp_after.startswith("unwalkable") else fp_after))
+    g_after, _ = export(dendropy, [src])
+    n_own = len(src_mut_objs)
+    strip = lambda o: (o[0], o[1], [f for f in o[2] if f[0] not in CANON_DROP])
+    if len(g_after.objs) != n_own:
+        real_changed = "graph-size %d->%d" % (n_own, len(g_after.objs))
+    else:
+        real_changed = [i for i in range(n_own) if strip(g_after.objs[i]) != strip(src_objs[i])]
 
     # ---- (a)/(b)/(c) sharing: literal identity-set intersection
     gc, cvals = export(dendropy, [cp], skip_attr=skip)
@@ -1294,7 +1363,11 @@ def run_case(ctx, dendropy, spec, pending=None, report=True):
     fp_src_cmp = fp_src if rclass != "migrate" else J(view(src, with_ns=False))
     src_unary = thin and any(len(nd._child_nodes) == 1 for nd in tu.walk(src._seed_node))
     if route == "extract" and src_unary:
-        pass   # default extract_tree suppresses unifurcations: the resulting structure is C08's subject; sharing/independence still checked
+        # default extract_tree suppresses unifurcations: judged by the definition of suppression (plain walks):
+        # same leaf taxa in order, same root-to-leaf length sums (None counts 0), no outdegree-1 node left,
+        # the surviving nodes are exactly the source's non-unifurcation nodes with their taxon / label / edge label
+        for p in suppressed_extract_problems(src, cp):
+            fail("extract-suppressed", p)
     elif fp_cp != fp_src_cmp:
         fail("not-equal", "copy differs from its source: %s" % first_diff(json.loads(fp_src_cmp), json.loads(fp_cp)))
     if thin:
@@ -1316,7 +1389,7 @@ def run_case(ctx, dendropy, spec, pending=None, report=True):
             gm.objs, gm.index_of, gm.keep = list(g.objs), dict(g.index_of), list(g.keep)
             gm, cv = export(dendropy, [cp], graph=gm)
             got = canon(gm.objs, cv[0], n_src)
-            pending.append((model_line(rclass, rootvals[0], pre, src_objs), spec, got, (n_src, src_objs)))
+            pending.append((model_line(rclass, rootvals[0], pre, src_objs), spec, got, (n_src, src_objs, n_own, real_changed)))
         elif rclass == "extract":
             toks, ids = tu.encode_tree(src)
             etoks = [hex6(ids.node(i)._edge._label) for i in range(len(ids))]
@@ -1463,7 +1536,7 @@ def flush(ctx, pending):
             if not m.startswith("err"):
                 ctx.disagree("copy", spec, "raises", m[:200])
             continue
-        n_src, src_objs = aux
+        n_src, src_objs, n_own, real_changed = aux
         objs, root = dec_model(m, n_src, src_objs)
         if objs is None:
             ctx.disagree("copy", spec, "\n".join(got)[:300], m[:200])
@@ -1472,6 +1545,18 @@ def flush(ctx, pending):
         if want != got:
             d = [(a, b) for a, b in zip(got, want) if a != b][:2]
             ctx.disagree("copy", spec, str(d and d[0][0] or len(got))[:300], str(d and d[0][1] or len(want))[:300])
+        # what copy_no_write* / copy_fresh / copy_memo_injective are about: the old objects and the memo of the model's run
+        extra = dec_model.last_extra
+        if extra["changed"] is None or extra["memo"] is None:
+            ctx.disagree("copy-old", spec, "driver answer without changed/memo section", m[-80:])
+            continue
+        model_changed = [i for i in extra["changed"] if i < n_own]
+        if model_changed != real_changed:
+            ctx.disagree("copy-old", spec, "source objects changed by the real copy: %s" % (real_changed,),
+                         "changed by the model: %s" % (model_changed,))
+        tg = [j for i, j in extra["memo"] if j >= n_src]
+        if len(set(tg)) != len(tg) or any(j >= len(objs) for i, j in extra["memo"]):
+            ctx.disagree("copy-memo", spec, "-", "memo of the model's run is not injective on fresh targets or points outside the heap")
     del pending[:]
 
 
